@@ -57,7 +57,7 @@ func lsScenario(seed uint64, rig string, hs []interface{}) *scn.Scenario {
 		Config: scn.Config{K: "00000000000000000000000000000000", OPC: "00000000000000000000000000000000", MCC: "001", MNC: "01", IMSI: "001010000000001"}}
 }
 
-var ulKinds = []string{"regcomplete", "smc", "authresp", "dereg", "est", "relreq", "svc", "gsm-est", "gsm-rel", "gsm-mod"}
+var ulKinds = []string{"regcomplete", "smc", "authresp", "dereg", "est", "relreq", "svc", "gsm-est", "gsm-rel", "gsm-mod", "ulnas-rt", "ulnas-min"}
 var dlKinds = []string{"authreq", "smc", "regaccept", "cuc", "svcaccept", "deregaccept", "dlnas", "authresult", "authreject", "idreq", "svcreject", "regreject"}
 
 func genMsg(r *kernel.Rand, kinds []string) map[string]interface{} {
